@@ -64,6 +64,14 @@ def items(tier, seed):
                 if tier == "quick" and sv != (ni + 1) % 2:
                     continue
                 its.append({"kind": "H", "inputs": list(inputs), "output": output, "name": name, "init": init, "sizes": sv, "tier": tier})
+    # deep annealing runs (see checks/c02.py): figures of the annealed tree vs a fresh rebuild
+    for ni, (inputs, output, name) in enumerate(NETWORKS):
+        if len(inputs) < 4:
+            continue
+        for mi, mode in enumerate(("basic", "reslice", 1, "drift")):
+            if tier == "quick" and (ni + mi) % 4 != 1:
+                continue
+            its.append({"kind": "D", "inputs": list(inputs), "output": output, "name": name, "init": ("caterpillar" if (ni + mi) % 2 else "greedy"), "sizes": 0, "slice_mode": mode, "tier": tier})
     sk = skel.skeletons(2, 2, 4, 1, outputs="unordered") + skel.skeletons(3, 2, 4, 1, outputs="unordered")
     sk = sk[::7] if tier == "quick" else sk[::2] + skel.skeletons(4, 2, 4, 1, max_positions=7, outputs="unordered")[::8]
     for i in range(0, len(sk), 2):
@@ -253,9 +261,44 @@ def sym_diffs(tree):
     return bads
 
 
+def run_D(item, rec):
+    from checks.c02 import deep_anneal, initial_tree, size_of
+    from vlib import stubs
+
+    tier = item["tier"]
+    inputs, output = tuple(item["inputs"]), item["output"]
+    labels = skel.all_labels(inputs)
+    size = size_of(labels, item["sizes"])
+    mode = item["slice_mode"]
+    target = max(2, initial_tree(inputs, output, size, item["init"]).max_size() // 2)
+    case0 = dict(inputs=list(inputs), output=output, size=size, init=item["init"], deep=True, slice_mode=mode, target=target)
+
+    def harness(ctx):
+        import random as _r
+
+        _r.seed(4242)
+        tree = initial_tree(inputs, output, size, item["init"])
+        rng = stubs.SymRng("an", uniform_mode="grid", random_mode="grid", free_draws=5)
+        rng.TAIL_STREAMS = 6
+
+        def viol(m, diffs=()):
+            return dict(case=case0, history=[], diffs=list(diffs)[:6], script=[[k, (list(x) if isinstance(x, (list, tuple)) else x)] for k, x in stubs.script_from_model(m, rng)],
+                        signature=["C04deep", item["name"], item["init"], str(mode)] + [str(d)[:40] for d in list(diffs)[:1]])
+
+        with rec.guarded(ctx, "tracked costs == fresh rebuild == definition after a multi-step annealing run", viol):
+            deep_anneal(tree, rng, mode, target)
+            diffs = check_state(tree)
+        rec.refute(ctx, bool(diffs), "tracked costs == fresh rebuild == definition after a multi-step annealing run", lambda m: viol(m, diffs))
+
+    out = symx.explore(harness, max_paths=(2500 if tier == "quick" else 40000), deadline_s=(25 if tier == "quick" else 300))
+    rec.add_explore(out)
+    rec.sample(dict(part="D", network=item["name"], deep_anneal=dict(tsteps=3, numiter=2, target_size=target, slice_mode=str(mode)), paths=out.paths))
+    rec.validated += 1
+
+
 def run_item(item, rec):
     warnings.simplefilter("ignore")
-    (run_H if item["kind"] == "H" else run_S)(item, rec)
+    {"H": run_H, "S": run_S, "D": run_D}[item["kind"]](item, rec)
 
 
 def replay(v):
@@ -284,6 +327,24 @@ def replay(v):
     from checks.c02 import initial_tree
 
     size = case["size"]
+    if case.get("deep"):
+        import random as _r
+
+        from checks.c02 import deep_anneal
+        from vlib import stubs
+
+        _r.seed(4242)
+        tree = initial_tree(inputs, output, size, case["init"])
+        try:
+            deep_anneal(tree, stubs.ScriptedRng([tuple(x) for x in v["script"]]), case["slice_mode"], case["target"])
+            d = check_state(tree)
+        except Exception as e:  # noqa
+            if v.get("raised"):
+                return True, f"simulated_anneal(tsteps=3, numiter=2, target_size={case['target']}, slice_mode={case['slice_mode']!r}) / cost queries raised {e!r} on the solver's draw sequence"
+            return False, f"replay raised {e!r} (scripted rng diverged?)"
+        if d:
+            return True, f"{','.join(inputs)}->{output}: after simulated_anneal(tsteps=3, numiter=2, target_size={case['target']}, slice_mode={case['slice_mode']!r}) on the solver's draw sequence: {d[:3]}"
+        return False, "figures agree with the rebuild on the recorded draw sequence"
     tree = initial_tree(inputs, output, size, case["init"])
     try:
         tree = history.replay_history(tree, v["history"], arrays=None)
